@@ -9,6 +9,20 @@ KEYERROR, MISSING = 1, 2
 HORIZON = 100000
 
 
+def kenc(k):
+    """explicit key strings: key 3 is the empty string - a falsy key is a key"""
+    return '' if k == 3 else str(k)
+
+
+def kdec(s):
+    return 3 if s == '' else int(s)
+
+
+class EB(BaseException):
+    """raised by the batch function in one batch out of three: a failure that is not an `Exception` (what a
+    batch function re-raises when something it awaits was cancelled)"""
+
+
 class E(Exception):
     pass
 
@@ -84,7 +98,7 @@ def gen(rng, flavor):
         same = rng.random() < (0.3 if flavor == 'c09' else 0.12) and i > 0
         t += 0 if same else rng.choice(grid) + 1
         key = i if flavor == 'c10' else rng.randrange(nkeys)
-        dk = rng.random() < 0.2
+        dk = rng.random() < 0.2 and key != 3      # key 3 is spelled '' (an explicit, falsy key): never the default str(arg)
         ins.append(('c', t, i, key if dk else rng.randint(0, 9), key, 1 if dk else 0))
     per_kinds = [0, 0, 0, 1, 2, 3, 4]
     if flavor in ('c10', 'c09'):
@@ -160,17 +174,17 @@ def run_real(cfg, ins, plan, make_batcher=None):
     async def main():
         async def bf(batch):
             batch = list(batch)
-            b, script = beh([(int(k), a) for k, a in batch])
-            out.append(('batch', now(), b, [int(k) for k, _ in batch], script))
+            b, script = beh([(kdec(k), a) for k, a in batch])
+            out.append(('batch', now(), b, [kdec(k) for k, _ in batch], script))
             try:
                 for idx, (d, act) in enumerate(script):
                     await asyncio.sleep(d * TICK)
                     out.append(('act', now(), b, idx))
                     if act[0] == 'yield':
                         r = act[2]
-                        yield str(act[1]), (E(r[1]) if r[0] == 'err' else tuple(r[1:]))
+                        yield kenc(act[1]), (E(r[1]) if r[0] == 'err' else tuple(r[1:]))
                     elif act[0] == 'raise':
-                        raise E(act[1])
+                        raise (EB if act[1] % 3 == 1 else E)(act[1])
             finally:
                 out.append(('batchend', now(), b))
         if make_batcher is None:
@@ -182,9 +196,9 @@ def run_real(cfg, ins, plan, make_batcher=None):
 
         async def caller(cid, arg, key, dk):
             try:
-                r = await (call(arg) if dk else call(arg, key=str(key)))
+                r = await (call(arg) if dk else call(arg, key=kenc(key)))
                 oc = ('ok',) + tuple(r) if isinstance(r, tuple) else ('ok', repr(r))
-            except E as e:
+            except (E, EB) as e:
                 oc = ('exc', e.args[0])
             except KeyError:
                 oc = ('exc', KEYERROR)
@@ -378,7 +392,7 @@ def run_chain(cfg, callers, plan):
             try:
                 r = await (bt(c['key']) if c['dk'] else bt(c['arg'], key=str(c['key'])))
                 oc = ('ok',) + tuple(r)
-            except E as e:
+            except (E, EB) as e:
                 oc = ('exc', e.args[0])
             except KeyError:
                 oc = ('exc', KEYERROR)
